@@ -133,6 +133,40 @@ func Main(t *testing.T) {
 	}
 }
 
+// lockWedge looks for goroutines of the simulated run that are blocked on a mutex inside the code under test.
+// Under the simulator a mutex is only ever waited for during the few instructions its holder needs; a goroutine
+// that has been waiting for many real seconds means the holder is itself blocked on something only the scheduler
+// or the simulated clock can provide - a lock held across a blocking operation (a network call, a timeout).
+// Returns the function that waits, or "".
+func lockWedge(stacks string) string {
+	for _, g := range strings.Split(stacks, "\n\n") {
+		head, _, _ := strings.Cut(g, "\n")
+		if !strings.Contains(head, "synctest bubble") || !(strings.Contains(head, "[sync.Mutex.Lock") || strings.Contains(head, "[sync.RWMutex.")) {
+			continue
+		}
+		if !strings.Contains(head, "minutes") && !strings.Contains(head, "minute") {
+			continue // blocked for less than a minute of real time
+		}
+		for _, l := range strings.Split(g, "\n")[1:] {
+			if strings.HasPrefix(l, "\t") {
+				continue
+			}
+			if strings.HasPrefix(l, "sync.") || strings.HasPrefix(l, "internal/") || strings.HasPrefix(l, "runtime.") {
+				continue
+			}
+			if i := strings.IndexByte(l, '('); i > 0 && strings.Contains(l, "vipnode/vipnode") {
+				fn := l
+				if j := strings.LastIndex(l, "("); j > 0 {
+					fn = l[:j]
+				}
+				return fn
+			}
+			break // the lock belongs to somebody else (badger, net/http, the harness)
+		}
+	}
+	return ""
+}
+
 func watchdog() {
 	last, lastT := kernel.Heartbeat(), time.Now()
 	for {
@@ -141,6 +175,14 @@ func watchdog() {
 		if h != last {
 			last, lastT = h, time.Now()
 			continue
+		}
+		if time.Since(lastT) > 75*time.Second {
+			buf := make([]byte, 4<<20)
+			st := string(buf[:runtime.Stack(buf, true)])
+			if fn := lockWedge(st); fn != "" {
+				fmt.Fprintf(os.Stderr, "WEDGE: %s has been waiting for a lock of the code under test for more than a minute: its holder is blocked on something that only other requests, the peer or the clock can provide\n%s\n", fn, st)
+				os.Exit(2)
+			}
 		}
 		if time.Since(lastT) > 150*time.Second {
 			buf := make([]byte, 1<<20)
